@@ -384,9 +384,13 @@ def oracle_full(case, r):
             except Exception:
                 rules = None
             if rules is not None:
+                rev = VENDORS[case["vendor"]][1]
                 for side in ("old", "new"):
                     for pth in paths_of(r[side]):
-                        if simple_walk(rules, pth) is False:
+                        # rows in negated form are covered through the rule's reverse form: not judged by this matcher
+                        if any(x.split(" ")[0] == rev for x in pth):
+                            continue
+                        if simple_walk(rules, pth)[0] is False:
                             vs.append(dict(sig="full.filter-passes-uncovered-line",
                                            what="%s keeps %s which the filter %r does not cover" % (side, pth, ft)))
                             break
